@@ -84,6 +84,19 @@ def case_strategy(draw, max_steps):
         if 1902 <= w.year <= 2100:
             y, m, d = w.year, w.month, w.day
     steps = draw(st.one_of(st.integers(0, 5), st.integers(0, 60), st.integers(0, max_steps)))
+    if tr and not isdate and draw(st.integers(0, 5)) == 0:
+        # a short interval hugging an offset change: start within two gap/overlap lengths before it, a handful of minute/second steps across it
+        # (both endpoints share the tz object but not the offset, and are closer together than the change is long)
+        t, oa, ob = tr[draw(st.integers(0, len(tr) - 1))]
+        g = max(abs(ob - oa), 60)
+        w = D.datetime(1970, 1, 1) + D.timedelta(seconds=t + oa - draw(st.integers(1, 2 * g)))
+        if 1902 <= w.year <= 2100:
+            unit = draw(st.sampled_from(["minutes", "seconds", "hours", "microseconds"]))
+            n_ = draw(st.integers(1, 12))
+            steps = draw(st.integers(1, 40))
+            return {"unit": unit, "n": n_, "steps": steps, "date": False, "start": [w.year, w.month, w.day, w.hour, w.minute, w.second, draw(st.sampled_from([0, 1, 999999]))],
+                    "zone": zone, "sign": draw(st.sampled_from([1, 1, -1])), "absolute": draw(st.booleans()), "extra": draw(st.one_of(st.just(0), st.floats(0.01, 0.95))),
+                    "direct_iter": False}
     if unit in ("years", "months"):
         steps = min(steps, 7000 if unit == "years" else 60000)
     return {"unit": unit, "n": draw(st.integers(1, 12)), "steps": steps, "date": isdate, "start": [y, m, d, draw(st.integers(0, 23)), draw(st.integers(0, 59)),
@@ -199,7 +212,7 @@ class Range(Sub):
             req((got[j].year, got[j].month, got[j].day) == (yy, mm + 1, dd), "month/year stepping drifted (clamping accumulated)", got=str(got[j]), expected=(yy, mm + 1, dd), k=j)
         reach = any(inst(x) == inst(e) for x in exp)
         req(reach == (bool(got) and inst(got[-1]) == inst(e)), "end is yielded iff it is reachable: violated", end=str(e), last=str(got[-1]) if got else None)
-        if forward:
+        if forward or absolute:
             for x in got[:50] + got[-50:]:
                 req(x in iv, "a yielded value is not contained in the interval", value=str(x), interval=repr(iv))
         probes = list(got[:3]) + list(got[-3:]) + [s, e]
@@ -208,9 +221,12 @@ class Range(Sub):
         except (OverflowError, ValueError):
             pass
         for p in probes:
-            req((p in iv) == (iv.start <= p <= iv.end), "'x in interval' is not equivalent to start <= x <= end", x=str(p))
-            if wallv(iv.start) <= wallv(iv.end) and (wallv(p) <= wallv(e)) == (inst(p) <= inst(e)) and (wallv(s) <= wallv(p)) == (inst(s) <= inst(p)):
-                req((p in iv) == (inst(iv.start) <= inst(p) <= inst(iv.end)), "'x in interval' disagrees with the order of the instants", x=str(p))
+            # containment is a statement about the time line: start <= x <= end as instants.  Python's own <= between two aware values that share a tzinfo
+            # object compares wall clocks, which inside a repeated hour is another order - the literal expression is asserted where the two agree
+            req((p in iv) == (inst(iv.start) <= inst(p) <= inst(iv.end)), "'x in interval' is not equivalent to start <= x <= end on the time line", x=str(p),
+                interval=repr(iv))
+            if (wallv(iv.start) <= wallv(p)) == (inst(iv.start) <= inst(p)) and (wallv(p) <= wallv(iv.end)) == (inst(p) <= inst(iv.end)):
+                req((p in iv) == (iv.start <= p <= iv.end), "'x in interval' is not equivalent to the expression start <= x <= end", x=str(p))
         crosses = bool(z) and got and T.transition_between(inst(got[0]), inst(got[-1]), z) if (z and not case["date"]) else False
         nt = (unit in ("years", "months") and d >= 29) or not forward or absolute or bool(crosses)
         lab = ("date" if case["date"] else "naive" if not z else "aware") + ":" + unit + (":inverted" if not forward else "") + (":absolute" if absolute else "")
